@@ -1,0 +1,203 @@
+//go:build verif
+
+// Contracts for the verification machinery in /verif (govc); only compiled with -tags verif.
+// Property C18 (access control): every database operation is reached only through the permission gate with a method
+// name whose permission levels (pkg/auth/permissions.go) cover the class of the operation. The classes below are taken
+// from the property statement: an operation that changes the contents or settings of a database needs RW, Admin or
+// SysAdmin; one that returns data additionally admits R; administrative ones need Admin or SysAdmin.
+package database
+
+// Ghost_granted(db): the permission levels (bit mask R=1, RW=2, Admin=4, SysAdmin=8) the caller may hold given that the
+// gate returned db. Ghost_isSysDB(db): db may be the system database. Both are uninterpreted (ghost) functions of the
+// identity of db; only the gate's postcondition says anything about them.
+func Ghost_granted(db DB) uint32 { return 0 }
+
+func Ghost_isSysDB(db DB) bool { return false }
+
+//@ iface DB.Set
+//@   requires write: (Ghost_granted(self) & ^uint32(14)) == 0
+//@   requires notsys: !Ghost_isSysDB(self)
+
+//@ iface DB.VerifiableSet
+//@   requires write: (Ghost_granted(self) & ^uint32(14)) == 0
+//@   requires notsys: !Ghost_isSysDB(self)
+
+//@ iface DB.Delete
+//@   requires write: (Ghost_granted(self) & ^uint32(14)) == 0
+//@   requires notsys: !Ghost_isSysDB(self)
+
+//@ iface DB.SetReference
+//@   requires write: (Ghost_granted(self) & ^uint32(14)) == 0
+//@   requires notsys: !Ghost_isSysDB(self)
+
+//@ iface DB.VerifiableSetReference
+//@   requires write: (Ghost_granted(self) & ^uint32(14)) == 0
+//@   requires notsys: !Ghost_isSysDB(self)
+
+//@ iface DB.ExecAll
+//@   requires write: (Ghost_granted(self) & ^uint32(14)) == 0
+//@   requires notsys: !Ghost_isSysDB(self)
+
+//@ iface DB.ZAdd
+//@   requires write: (Ghost_granted(self) & ^uint32(14)) == 0
+//@   requires notsys: !Ghost_isSysDB(self)
+
+//@ iface DB.VerifiableZAdd
+//@   requires write: (Ghost_granted(self) & ^uint32(14)) == 0
+//@   requires notsys: !Ghost_isSysDB(self)
+
+//@ iface DB.SQLExec
+//@   requires write: (Ghost_granted(self) & ^uint32(14)) == 0
+//@   requires notsys: !Ghost_isSysDB(self)
+
+//@ iface DB.SQLExecPrepared
+//@   requires write: (Ghost_granted(self) & ^uint32(14)) == 0
+//@   requires notsys: !Ghost_isSysDB(self)
+
+//@ iface DB.ReplicateTx
+//@   requires write: (Ghost_granted(self) & ^uint32(14)) == 0
+//@   requires notsys: !Ghost_isSysDB(self)
+
+//@ iface DB.AllowCommitUpto
+//@   requires write: (Ghost_granted(self) & ^uint32(14)) == 0
+//@   requires notsys: !Ghost_isSysDB(self)
+
+//@ iface DB.DiscardPrecommittedTxsSince
+//@   requires write: (Ghost_granted(self) & ^uint32(14)) == 0
+//@   requires notsys: !Ghost_isSysDB(self)
+
+//@ iface DB.TruncateUptoTx
+//@   requires write: (Ghost_granted(self) & ^uint32(14)) == 0
+//@   requires notsys: !Ghost_isSysDB(self)
+
+//@ iface DB.CreateCollection
+//@   requires write: (Ghost_granted(self) & ^uint32(14)) == 0
+//@   requires notsys: !Ghost_isSysDB(self)
+
+//@ iface DB.UpdateCollection
+//@   requires write: (Ghost_granted(self) & ^uint32(14)) == 0
+//@   requires notsys: !Ghost_isSysDB(self)
+
+//@ iface DB.DeleteCollection
+//@   requires write: (Ghost_granted(self) & ^uint32(14)) == 0
+//@   requires notsys: !Ghost_isSysDB(self)
+
+//@ iface DB.AddField
+//@   requires write: (Ghost_granted(self) & ^uint32(14)) == 0
+//@   requires notsys: !Ghost_isSysDB(self)
+
+//@ iface DB.RemoveField
+//@   requires write: (Ghost_granted(self) & ^uint32(14)) == 0
+//@   requires notsys: !Ghost_isSysDB(self)
+
+//@ iface DB.CreateIndex
+//@   requires write: (Ghost_granted(self) & ^uint32(14)) == 0
+//@   requires notsys: !Ghost_isSysDB(self)
+
+//@ iface DB.DeleteIndex
+//@   requires write: (Ghost_granted(self) & ^uint32(14)) == 0
+//@   requires notsys: !Ghost_isSysDB(self)
+
+//@ iface DB.InsertDocuments
+//@   requires write: (Ghost_granted(self) & ^uint32(14)) == 0
+//@   requires notsys: !Ghost_isSysDB(self)
+
+//@ iface DB.ReplaceDocuments
+//@   requires write: (Ghost_granted(self) & ^uint32(14)) == 0
+//@   requires notsys: !Ghost_isSysDB(self)
+
+//@ iface DB.DeleteDocuments
+//@   requires write: (Ghost_granted(self) & ^uint32(14)) == 0
+//@   requires notsys: !Ghost_isSysDB(self)
+
+//@ iface DB.CopySQLCatalog
+//@   requires write: (Ghost_granted(self) & ^uint32(14)) == 0
+//@   requires notsys: !Ghost_isSysDB(self)
+
+//@ iface DB.Get
+//@   requires read: (Ghost_granted(self) & ^uint32(15)) == 0
+
+//@ iface DB.VerifiableGet
+//@   requires read: (Ghost_granted(self) & ^uint32(15)) == 0
+
+//@ iface DB.GetAll
+//@   requires read: (Ghost_granted(self) & ^uint32(15)) == 0
+
+//@ iface DB.Scan
+//@   requires read: (Ghost_granted(self) & ^uint32(15)) == 0
+
+//@ iface DB.History
+//@   requires read: (Ghost_granted(self) & ^uint32(15)) == 0
+
+//@ iface DB.Count
+//@   requires read: (Ghost_granted(self) & ^uint32(15)) == 0
+
+//@ iface DB.CountAll
+//@   requires read: (Ghost_granted(self) & ^uint32(15)) == 0
+
+//@ iface DB.ZScan
+//@   requires read: (Ghost_granted(self) & ^uint32(15)) == 0
+
+//@ iface DB.SQLQuery
+//@   requires read: (Ghost_granted(self) & ^uint32(15)) == 0
+
+//@ iface DB.SQLQueryAll
+//@   requires read: (Ghost_granted(self) & ^uint32(15)) == 0
+
+//@ iface DB.SQLQueryPrepared
+//@   requires read: (Ghost_granted(self) & ^uint32(15)) == 0
+
+//@ iface DB.VerifiableSQLGet
+//@   requires read: (Ghost_granted(self) & ^uint32(15)) == 0
+
+//@ iface DB.ListTables
+//@   requires read: (Ghost_granted(self) & ^uint32(15)) == 0
+
+//@ iface DB.DescribeTable
+//@   requires read: (Ghost_granted(self) & ^uint32(15)) == 0
+
+//@ iface DB.TxByID
+//@   requires read: (Ghost_granted(self) & ^uint32(15)) == 0
+
+//@ iface DB.ExportTxByID
+//@   requires read: (Ghost_granted(self) & ^uint32(15)) == 0
+
+//@ iface DB.VerifiableTxByID
+//@   requires read: (Ghost_granted(self) & ^uint32(15)) == 0
+
+//@ iface DB.TxScan
+//@   requires read: (Ghost_granted(self) & ^uint32(15)) == 0
+
+//@ iface DB.GetCollection
+//@   requires read: (Ghost_granted(self) & ^uint32(15)) == 0
+
+//@ iface DB.GetCollections
+//@   requires read: (Ghost_granted(self) & ^uint32(15)) == 0
+
+//@ iface DB.AuditDocument
+//@   requires read: (Ghost_granted(self) & ^uint32(15)) == 0
+
+//@ iface DB.SearchDocuments
+//@   requires read: (Ghost_granted(self) & ^uint32(15)) == 0
+
+//@ iface DB.CountDocuments
+//@   requires read: (Ghost_granted(self) & ^uint32(15)) == 0
+
+//@ iface DB.ProofDocument
+//@   requires read: (Ghost_granted(self) & ^uint32(15)) == 0
+
+//@ iface DB.CurrentState
+//@   requires read: (Ghost_granted(self) & ^uint32(15)) == 0
+
+//@ iface DB.FlushIndex
+//@   requires admin: (Ghost_granted(self) & ^uint32(12)) == 0
+
+//@ iface DB.CompactIndex
+//@   requires admin: (Ghost_granted(self) & ^uint32(12)) == 0
+
+//@ iface DB.SetSyncReplication
+//@   requires admin: (Ghost_granted(self) & ^uint32(12)) == 0
+
+//@ iface DB.AsReplica
+//@   requires admin: (Ghost_granted(self) & ^uint32(12)) == 0
+
